@@ -508,6 +508,9 @@ mod synth {
         pub code: Vec<u8>,
         /// kernel tie: (cvt value, current coordinate, cut-in) of a `SCFS; WCVTP; SCVTCI; ROFF; MIAP[1]` program on point 0
         pub miap_kernel: Option<(i64, i64, i64)>,
+        /// divergence class of the `stack` family: CINDEX/MINDEX with an index outside 1..=depth (FreeType, not pedantic:
+        /// CINDEX pushes 0, MINDEX only pops the index, the program goes on)
+        pub class: Option<&'static str>,
     }
 
     #[derive(Default)]
@@ -531,10 +534,13 @@ mod synth {
         }
     }
 
-    pub const FAMILIES: [&str; 16] = [
+    pub const FAMILIES: [&str; 17] = [
         "miap", "mdrp", "mirp", "align", "isect", "shpix", "arith", "measure", "delta", "cond", "twilight", "call", "flip",
-        "vectors", "mixed", "kmiap",
+        "vectors", "mixed", "kmiap", "stack",
     ];
+    /// keys of the `stack` family's divergence classes (one oracle failure per class instead of one per glyph and mode)
+    pub const CLASS_MINDEX_ZERO: &str = "mindex-zero-index";
+    pub const CLASS_INDEX_RANGE: &str = "cindex-mindex-index-out-of-range";
     const VARIANTS: usize = 36;
     const SCRATCH_CVT: i32 = 40; // cvt entries 40.. are written by the programs
 
@@ -839,9 +845,34 @@ mod synth {
         a.push(&[p as i32, SCRATCH_CVT + 13]).op(0x3E + r.below(2) as u8);
     }
 
+    /// CINDEX / MINDEX at the boundary indices of an 8-deep stack (0, 1, 2, 3, depth, depth+1, -1, i16 limits), the
+    /// whole resulting stack made visible: each of the top eight values afterwards becomes the coordinate (SCFS along
+    /// y: allowed in every hinting mode) or the shift (SHPIX along x: visible in mono) of one of the eight points.
+    /// Returns the divergence class of the variant (index outside 1..=depth).
+    fn fam_stack(a: &mut Asm, v: usize) -> Option<&'static str> {
+        const IDX: [i32; 9] = [0, 1, 2, 8, 9, -1, 3, 32767, -32768];
+        const DEPTH: i32 = 8;
+        let idx = IDX[v % 9];
+        let mindex = (v / 9) % 2 == 1;
+        let scfs = v / 18 == 0;
+        a.op(if scfs { 0x00 } else { 0x01 }); // SVTCA[y] / SVTCA[x]
+        let vals: Vec<i32> = (0..DEPTH).map(|i| if scfs { 64 * (3 * i + 2) + 7 * i } else { 24 * (i + 1) - 100 }).collect();
+        a.push(&vals).push(&[idx]).op(if mindex { 0x26 } else { 0x25 }); // MINDEX / CINDEX
+        for p in 0..8 {
+            a.push(&[p]).op(0x23).op(if scfs { 0x48 } else { 0x38 }); // PUSH p; SWAP; SCFS / SHPIX
+        }
+        if (1..=DEPTH).contains(&idx) {
+            None
+        } else if mindex && idx == 0 {
+            Some(CLASS_MINDEX_ZERO)
+        } else {
+            Some(CLASS_INDEX_RANGE)
+        }
+    }
+
     pub fn glyphs() -> Vec<Glyph> {
         let mut r = Rng::new(0xC03);
-        let mut out = vec![Glyph { name: ".notdef".into(), pts: vec![], code: vec![], miap_kernel: None }];
+        let mut out = vec![Glyph { name: ".notdef".into(), pts: vec![], code: vec![], miap_kernel: None, class: None }];
         let base: [(i32, i32); 8] = [(100, 0), (900, 0), (1130, 310), (1100, 1090), (880, 1400), (120, 1400), (-60, 1010), (-30, 290)];
         for fam in FAMILIES {
             for v in 0..VARIANTS {
@@ -849,7 +880,10 @@ mod synth {
                     base.iter().map(|(x, y)| ((x + r.range(-70, 70) as i32) as i16, (y + r.range(-70, 70) as i32) as i16)).collect();
                 let mut a = Asm::default();
                 let mut kernel = None;
-                if fam == "kmiap" {
+                let mut class = None;
+                if fam == "stack" {
+                    class = fam_stack(&mut a, v);
+                } else if fam == "kmiap" {
                     // x(point 0) := v; cvt := c; cut-in := k; no rounding; MIAP[1]  =>  x(point 0) = cut-in selection
                     let pick = |r: &mut Rng| -> i32 {
                         match r.below(4) {
@@ -903,7 +937,7 @@ mod synth {
                         _ => {}
                     }
                 }
-                out.push(Glyph { name: format!("{fam}{v:02}"), pts, code: a.0, miap_kernel: kernel });
+                out.push(Glyph { name: format!("{fam}{v:02}"), pts, code: a.0, miap_kernel: kernel, class });
             }
         }
         out
@@ -1371,7 +1405,14 @@ fn grid(st: &mut Stats, thorough: bool, synthetic: Option<&std::path::Path>) -> 
         let big_synth = parts[3] == SYNTH_FILE
             && parts[1].parse::<u32>().map(|p| p > 1000).unwrap_or(false)
             && !fails_small.contains(&format!("{}:{}:{}", parts[3], parts[2], parts[0]));
-        let gkey = if big_cff {
+        // synthetic `stack` family: CINDEX/MINDEX with an index outside 1..=depth is one documented divergence class
+        // per kind (FreeType, not pedantic, goes on; skrifa corrupts the stack for MINDEX 0 and aborts otherwise)
+        let stack_class = (parts[3] == SYNTH_FILE && parts[0] != "unhinted" && f["what"] == "outline differs")
+            .then(|| SYNTH.get().and_then(|v| v.iter().find(|g| g.name == parts[2])).and_then(|g| g.class))
+            .flatten();
+        let gkey = if let Some(c) = stack_class {
+            format!("{}:{}", parts[3], c)
+        } else if big_cff {
             format!("{}:cff-above-2000ppem", parts[3])
         } else if big_synth {
             format!("{}:above-1000ppem", parts[3])
@@ -1379,7 +1420,7 @@ fn grid(st: &mut Stats, thorough: bool, synthetic: Option<&std::path::Path>) -> 
             format!("{}:{}:*:{}", parts[3], parts[2], parts[0])
         };
         let e = groups.entry(gkey).or_insert_with(|| (f.clone(), vec![]));
-        let inst = if big_cff || big_synth { format!("{}@{}:{}", parts[2], parts[1], parts[0]) } else { parts[1].to_string() };
+        let inst = if big_cff || big_synth || stack_class.is_some() { format!("{}@{}:{}", parts[2], parts[1], parts[0]) } else { parts[1].to_string() };
         if e.1.len() < 400 {
             e.1.push(inst);
         }
